@@ -129,6 +129,11 @@ def gen_labels(rng, big):
                        [24.9, 28.1, 18.3, 17.3], [0.1, 0.7, 1.3]])
     base = rng.choice([0, 0, 100, -50, 250.5, -5, -3])
     span = rng.choice([20, 100, 400, 1000])
+    if rng.random() < 0.04:
+        # data positions of another magnitude altogether (epoch seconds / microseconds):
+        # legal labels; whatever a layout derives from the size of its coordinates
+        # (tolerances, scratch values) must not outlive it
+        base = rng.choice([10 ** 9, 5 * 10 ** 14, 2 ** 50, -3 * 10 ** 14])
     pos2w = {}
     labels = []
     for _ in range(n):
@@ -421,6 +426,8 @@ def gen_plan(rng, tier):
         plan["gc"] = "every_op"      # ... or a full collection after every operation
     if tier == "thorough" and rng.random() < 0.004:
         plan["cold_crosscheck"] = True
+    if rng.random() < 0.04:
+        plan["warnings"] = "error"   # environment: warnings escalated to errors (python -W error)
     return plan
 
 
@@ -676,6 +683,10 @@ def _run(plan):
 
     if plan.get("gc") == "disabled":
         _gc.disable()
+    if plan.get("warnings") == "error":
+        import warnings
+
+        warnings.simplefilter("error")  # environment: python -W error (run and references alike)
     if plan.get("pyopt"):
         # the library as `python -O` compiles it (assert statements stripped)
         from ..util import reimport_labella
@@ -1270,6 +1281,10 @@ def _run(plan):
 
 def _reference(job):
     """Pristine child: fresh engine, fresh labels in canonical order."""
+    if job.get("warnings") == "error":
+        import warnings
+
+        warnings.simplefilter("error")
     if job.get("pyopt"):
         from ..util import reimport_labella
 
@@ -1316,7 +1331,8 @@ def execute(plan):
             continue
         key = h64([cp["opts"], sorted(cp["labels"])])
         if key not in cache:
-            cache[key] = run_isolated(_reference, {"opts": cp["opts"], "labels": cp["labels"], "pyopt": plan.get("pyopt")})
+            cache[key] = run_isolated(_reference, {"opts": cp["opts"], "labels": cp["labels"], "pyopt": plan.get("pyopt"),
+                                                   "warnings": plan.get("warnings")})
             counters["references_computed"] = counters.get("references_computed", 0) + 1
             if plan.get("cold_crosscheck") and not counters.get("cold_reference_crosschecks"):
                 from ..driver import cold_reference
